@@ -62,6 +62,7 @@ def check_history(case, ctx: Ctx):
         h = pool[i]
         before = snaps()
         new = None
+        extra = []
         mutated = None
         what = f"step {k} {name}({i})"
         d = h.ndim
@@ -158,12 +159,23 @@ def check_history(case, ctx: Ctx):
         elif name == "radd0":
             new = ctx.call(what, lambda: 0 + h)
             require(new is not h, "radd_aliases_operand", what)
-        elif name in ("collection_copy", "collection_sum", "collection_normalize_all"):
+        elif name in ("collection_copy", "collection_sum", "collection_normalize_all", "collection_create"):
             if type(h).__name__ != "Histogram1D":
                 continue
-            col = ctx.call(what, HistogramCollection, h)
+            sibling = h.copy()
+            col = ctx.call(what, HistogramCollection, h, sibling)
             if name == "collection_copy":
-                new = ctx.call(what, col.copy).histograms[0]
+                members = ctx.call(what, col.copy).histograms
+                new = members[0]
+                extra.append(members[1])  # the copied members must be independent of one another as well
+            elif name == "collection_create":
+                if any(b.bin_count == 0 for b in h.binnings):
+                    continue
+                b0 = h.binnings[0]
+                lo, hi = float(b0.bins[0][0]), float(b0.bins[-1][1])
+                vals = [lo + (hi - lo) * t for t in op[2]] if h.is_adaptive() else [lo + (hi - lo) * min(max(t, 0.0), 0.99) for t in op[2]]
+                new = ctx.call(what, col.create, "made", np.array(vals))
+                require(float(new.total) == len(vals), "collection_create_total", f"{what}: total {new.total} for {len(vals)} values")
             elif name == "collection_sum":
                 new = ctx.call(what, col.sum)
             else:
@@ -248,6 +260,10 @@ def check_history(case, ctx: Ctx):
                 require(new is not obj, "result_is_operand", f"{what}: result is pool object {j}")
             pool.append(new)
             parents.append(i)
+            for x in extra:
+                wellformed(x, f"{what}: second result")
+                pool.append(x)
+                parents.append(i)
             ctx.label("derive_" + name)
         if mutated is not None:
             ctx.label("mutate_" + name)
@@ -258,7 +274,8 @@ def check_history(case, ctx: Ctx):
 
 
 DERIVE = ["copy", "copy_empty", "add", "sub", "mul", "rmul", "div", "normalize", "merge", "projection", "index", "select_int", "T",
-          "partial_normalize", "accumulate", "json", "sum1", "radd0", "collection_copy", "collection_sum", "collection_normalize_all"]
+          "partial_normalize", "accumulate", "json", "sum1", "radd0", "collection_copy", "collection_copy", "collection_sum", "collection_normalize_all",
+          "collection_create"]
 MUTATE = ["fill", "fill", "fill_n", "imul", "idiv", "iadd", "set_dtype", "rename", "axis_names", "meta", "merge_inplace"]
 
 
@@ -279,6 +296,8 @@ def one_op(draw):
         return [name, i, draw(st.integers(0, 9)), draw(st.integers(0, 9))]
     if name in ("partial_normalize", "accumulate"):
         return [name, i, draw(st.integers(0, 3))]
+    if name == "collection_create":
+        return [name, i, draw(st.lists(st.sampled_from([0.1, 0.5, 0.9, -0.7, 1.6, 2.4, 0.0]), min_size=1, max_size=4))]
     if name in ("fill", "fill_n"):
         return [name, i, draw(st.lists(st.sampled_from([0.1, 0.5, 0.9, -0.7, 1.6, 2.4, -1.5, 0.0, 1.0]), min_size=3, max_size=3))]
     if name == "set_dtype":
